@@ -16,7 +16,7 @@ from t_grammar import RefParser, Reject, N, compare, variable_idents, show, OPNA
 
 TOKEN_TEXT = {"OrOr": "||", "AndAnd": "&&", "LessThan": "<", "LessEqual": "<=", "EqualEqual": "==", "NotEqual": "!=", "GreaterEqual": ">=", "GreaterThan": ">", "In": "in",
               "Add": "+", "Minus": "-", "Multiply": "*", "Divide": "/", "Mod": "%", "LParen": "(", "RParen": ")", "Question": "?", "Colon": ":", "Not": "!", "Dot": ".",
-              "LBracket": "[", "RBracket": "]", "Comma": ",", "LBrace": "{", "RBrace": "}", "Null": "null"}
+              "LBracket": "[", "RBracket": "]", "Comma": ",", "LBrace": "{", "RBrace": "}", "Null": "null", "Match": "match", "Case": "case"}
 OP_TEXT = {"Add": "+", "Sub": "-", "Mul": "*", "Div": "/", "Mod": "%", "Lt": "<", "Le": "<=", "Eq": "==", "Ne": "!=", "Ge": ">=", "Gt": ">", "In": "in", "Or": "||", "And": "&&"}
 LEVELS = ["Expr", "Or", "And", "Relation", "Addition", "Multiplication", "UnaryT"]
 AST_OP = {"Add": "Add", "Sub": "Sub", "Mult": "Mul", "Div": "Div", "Mod": "Mod", "Lt": "Lt", "Le": "Le", "Eq": "Eq", "Ne": "Ne", "Ge": "Ge", "Gt": "Gt", "In": "In"}
@@ -78,6 +78,20 @@ def walk_inner(inner, level, names, lits):
             return N(k="cond", c=walk(t["condition"], "Or", names, lits), x=walk(t["true_clause"], "Or", names, lits), y=walk(t["false_clause"], "Expr", names, lits))
         if "Unary" in inner:
             return walk(inner["Unary"], "Or", names, lits)
+        if "Match" in inner:
+            m = inner["Match"]
+            cases = []
+            for c in m["cases"]:
+                pn = c["node"]["pattern"]["node"]
+                if isinstance(pn, dict) and "Cmp" in pn:
+                    op = pn["Cmp"]["op"]["node"]
+                    pat = N(k="cmp", op={"Neq": "Ne"}.get(op, op), e=walk(pn["Cmp"]["or"], "Or", names, lits))
+                elif (isinstance(pn, dict) and "Any" in pn) or pn == "Any":
+                    pat = N(k="any")
+                else:
+                    pat = N(k="type")
+                cases.append(N(k="case", pat=pat, arm=walk(c["node"]["expr"], "Expr", names, lits)))
+            return N(k="match", s=walk(m["condition"], "Expr", names, lits), cases=cases)
         return N(k="?" + next(iter(inner)))
     if level in ("Or", "And", "Relation", "Addition", "Multiplication"):
         nxt = LEVELS[LEVELS.index(level) + 1]
@@ -154,7 +168,7 @@ ERR = ("err",)
 
 
 def truthy(v):
-    if v == ERR:
+    if v == ERR or v == ("null",):
         return False
     return bool(v[1])
 
@@ -183,6 +197,17 @@ def mini_eval(n, env, toks):
                 raise Unknown("negation of a non-int")
             v = ("int", -v[1]) if I64[0] <= -v[1] <= I64[1] else ERR
         return v
+    if k == "match":
+        sv = mini_eval(n.s, env, toks)
+        for c in n.cases:
+            if c.pat["k"] == "any":
+                return mini_eval(c.arm, env, toks)
+            r = mini_eval(N(k="bin", op=c.pat.op, l=N(k="__val", v=sv), r=c.pat.e), env, toks)
+            if r != ERR and truthy(r):
+                return mini_eval(c.arm, env, toks)
+        return ("null",)
+    if k == "__val":
+        return n.v
     if k == "cond":
         c = mini_eval(n.c, env, toks)
         if c == ERR:
@@ -253,6 +278,9 @@ def render(n, toks, names, full=True):
         return "[" + ", ".join(render(a, toks, names, full) for a in n["items"]) + "]"
     if k == "map":
         return "{" + ", ".join(f"{render(a, toks, names, full)}: {render(b, toks, names, full)}" for a, b in n.inits) + "}"
+    if k == "match":
+        cs = ", ".join("case " + ("_" if c.pat["k"] == "any" else OP_TEXT[c.pat.op] + " " + render(c.pat.e, toks, names, full)) + ": " + render(c.arm, toks, names, full) for c in n.cases)
+        return w("match " + render(n.s, toks, names, full) + " { " + cs + " }")
     if k == "member":
         s = render(n.prim, toks, names, full)
         for e in n.elems:
@@ -280,6 +308,8 @@ def cls(res):
 def show_mini(v):
     if v == ERR:
         return "a failure"
+    if v == ("null",):
+        return "Null"
     return f"Int({v[1]})" if v[0] == "int" else f"Bool({'true' if v[1] else 'false'})"
 
 
@@ -314,7 +344,7 @@ def replay_grammar(run, exe, failures):
                 want = None         # trailing tokens: a whole program must be one expression
         except Reject:
             want = None
-        idents = sorted({t[1] for t in tokens if t[0] == "Ident"})
+        idents = sorted({t[1] for t in tokens if t[0] == "Ident" and t[1] != "_"})
         rec = {"label": f["label"], "source": src}
         tried.append(rec)
         bad = check_one(run, exe, src, tokens, rtoks, cols, want, idents, rec, words)
@@ -381,7 +411,7 @@ def check_one(run, exe, src, tokens, rtoks, cols, want, idents, rec, words):
     params = set(first.get("params") or [])
     if not must <= params:
         return f"parameters {sorted(params)} miss the variable(s) {sorted(must - params)}"
-    if not params <= set(idents):
+    if not params <= set(idents) | {"_"}:
         return f"parameters {sorted(params)} contain names that are not in the source"
     # ---- evaluation: absolute oracle where defined
     for env, o in zip(envs, out):
@@ -422,7 +452,7 @@ def check_one(run, exe, src, tokens, rtoks, cols, want, idents, rec, words):
     ws = list(words)
     for env in envs[:4]:
         if idents and all(n in env and env[n][0] == "int" and env[n][1] >= 0 for n in idents):
-            prim_pos = [i for i, t in enumerate(tokens) if t[0] == "Ident" and not (i > 0 and tokens[i - 1][0] == "Dot") and not (i + 1 < len(tokens) and tokens[i + 1][0] == "LParen")]
+            prim_pos = [i for i, t in enumerate(tokens) if t[0] == "Ident" and t[1] != "_" and not (i > 0 and tokens[i - 1][0] == "Dot") and not (i + 1 < len(tokens) and tokens[i + 1][0] == "LParen")]
             ws2 = list(ws)
             for i in prim_pos:
                 ws2[i] = str(env[tokens[i][1]][1])
